@@ -7,6 +7,7 @@ Lemmas/Flv*.lean.
 import IpcHub.Lemmas.FlvMux
 import IpcHub.Model.FlvInst
 import IpcHub.Lemmas.FlvTimeline
+import IpcHub.Lemmas.FlvJoin
 namespace IpcHub.Props.C08
 open IpcHub.Flv IpcHub.FlvSpec IpcHub.FlvLemmas
 
@@ -148,6 +149,163 @@ theorem c08_source_services :
     IpcHub.Gen.wsConsumeWrite = "c.w.WriteFlvTag(pack.(*flv.Tag))" := by
   decide
 
+/-- The marshalling code, statement by statement, as the model reads it (`Model/Flv.lean`:
+    `videoDataBytes`, `audioDataBytes`, `scriptDataBytes`, `avcRecord`, `hevcInit`/`applyPLT`/
+    `hevcRecordBytes`, the `amf` writers, `Tag.Size`): VIDEODATA = frame type and codec nibbles,
+    packet type and the 24 low bits of the composition time, a 4-byte length in front of a NAL
+    unit; AUDIODATA = format/rate/size/type bits and the AAC packet type; the AVC record =
+    version 1, profile/compatibility/level from `sps[1..3]`, `0xff`, `0xe1`, 16-bit lengths; the
+    HEVC record = the 23 fixed bytes from the decoded VPS/SPS and three arrays of one NAL unit
+    each; AMF0 = marker byte + big-endian payloads.  A source change in any of these functions
+    breaks this theorem; the correspondence run then says whether behaviour changed. -/
+theorem c08_source_marshal :
+    IpcHub.Gen.marshalVideoData = ["buff := make([]byte, videoData.MarshalSize())", "offset := 0",
+      "buff[offset] = (videoData.FrameType << 4) | (videoData.CodecID & 0x0f)", "offset++",
+      "if videoData.CodecID == CodecIDAVC || videoData.CodecID == CodecIDHEVC",
+      "binary.BigEndian.PutUint32(buff[offset:], (uint32(videoData.H2645PacketType)<<24)|(videoData.CompositionTime&0x00ffffff))",
+      "offset += 4", "if videoData.H2645PacketType == H2645PacketTypeNALU",
+      "binary.BigEndian.PutUint32(buff[offset:], uint32(len(videoData.Body)))", "offset += 4",
+      "offset += copy(buff[offset:], videoData.Body)", "return buff[:offset], nil"] ∧
+    IpcHub.Gen.marshalVideoDataSize = ["if videoData.H2645PacketType == H2645PacketTypeNALU", "return 9 + len(videoData.Body)",
+      "return 5 + len(videoData.Body)"] ∧
+    IpcHub.Gen.marshalAudioData = ["buff := make([]byte, audioData.MarshalSize())", "offset := 0",
+      "buff[offset] = (audioData.SoundFormat << 4) | ((audioData.SoundRate & 0x03) << 2) | ((audioData.SoundSize & 0x01) << 1) | (audioData.SoundType & 0x01)",
+      "offset++", "if audioData.SoundFormat == SoundFormatAAC", "buff[offset] = audioData.AACPacketType",
+      "offset++", "offset += copy(buff[offset:], audioData.Body)", "return buff[:offset], nil"] ∧
+    IpcHub.Gen.marshalAudioDataSize = ["return 2 + len(audioData.Body)"] ∧
+    IpcHub.Gen.marshalScriptData = ["buff := bytes.NewBuffer(make([]byte, 0, 1024))",
+      "if err := amf.WriteString(buff, scriptData.Name); err != nil", "return nil, err",
+      "if err := amf.WriteAny(buff, scriptData.Value); err != nil", "return nil, err",
+      "return buff.Bytes(), nil"] := by
+  set_option maxRecDepth 100000 in decide
+
+/-- … the AVC decoder configuration record (see `c08_source_marshal`) -/
+theorem c08_source_marshal_avc :
+    IpcHub.Gen.newAvcRecord = ["return &AVCDecoderConfigurationRecord{ ConfigurationVersion: 1, AVCProfileIndication: sps[1], ProfileCompatibility: sps[2], AVCLevelIndication: sps[3], SPS: sps, PPS: pps, }"] ∧
+    IpcHub.Gen.marshalAvcRecord = ["buff := make([]byte, record.MarshalSize())", "offset := 0",
+      "buff[offset] = record.ConfigurationVersion", "offset++", "buff[offset] = record.AVCProfileIndication",
+      "offset++", "buff[offset] = record.ProfileCompatibility", "offset++",
+      "buff[offset] = record.AVCLevelIndication", "offset++", "buff[offset] = 0xff", "offset++",
+      "buff[offset] = 0xe1", "offset++", "binary.BigEndian.PutUint16(buff[offset:], uint16(len(record.SPS)))",
+      "offset += 2", "offset += copy(buff[offset:], record.SPS)", "buff[offset] = 0x01", "offset++",
+      "binary.BigEndian.PutUint16(buff[offset:], uint16(len(record.PPS)))", "offset += 2",
+      "offset += copy(buff[offset:], record.PPS)", "return buff, nil"] ∧
+    IpcHub.Gen.marshalAvcRecordSize = ["return 4 + 2 + 2 + len(record.SPS) + 1 + 2 + len(record.PPS)"] := by
+  set_option maxRecDepth 100000 in decide
+
+/-- … the HEVC decoder configuration record: constructor, `init`, `applyPLT`, `Marshal` (see `c08_source_marshal`) -/
+theorem c08_source_marshal_hevc :
+    IpcHub.Gen.newHevcRecord = ["record := &HEVCDecoderConfigurationRecord{ ConfigurationVersion: 1, LengthSizeMinusOne: 3, GeneralProfileCompatibilityFlags: 0xffffffff, GeneralConstraintIndicatorFlags: 0xffffffffffff, VPS: vps, SPS: sps, PPS: pps, }",
+      "record.init()", "return record"] ∧
+    IpcHub.Gen.hevcRecordInit = ["var rawVps hevc.H265RawVPS", "if err := rawVps.Decode(record.VPS); err != nil", "return err",
+      "if rawVps.Vps_max_sub_layers_minus1+1 > record.MaxSubLayers",
+      "record.MaxSubLayers = rawVps.Vps_max_sub_layers_minus1 + 1",
+      "record.applyPLT(&rawVps.Profile_tier_level)", "var rawSps hevc.H265RawSPS",
+      "if err := rawSps.Decode(record.SPS); err != nil", "return err",
+      "if rawSps.Sps_max_sub_layers_minus1+1 > record.MaxSubLayers",
+      "record.MaxSubLayers = rawSps.Sps_max_sub_layers_minus1 + 1",
+      "record.TemporalIdNestingFlag = rawSps.Sps_temporal_id_nesting_flag",
+      "record.applyPLT(&rawSps.Profile_tier_level)", "record.ChromaFormatIDC = rawSps.Chroma_format_idc",
+      "record.BitDepthLumaMinus8 = rawSps.Bit_depth_luma_minus8",
+      "record.BitDepthChromaMinus8 = rawSps.Bit_depth_chroma_minus8", "return nil"] ∧
+    IpcHub.Gen.hevcRecordApplyPLT = ["record.GeneralProfileSpace = ptl.General_profile_space",
+      "if ptl.General_tier_flag > record.GeneralTierFlag", "record.GeneralLevelIDC = ptl.General_level_idc",
+      "record.GeneralTierFlag = ptl.General_tier_flag", "if ptl.General_level_idc > record.GeneralLevelIDC",
+      "record.GeneralLevelIDC = ptl.General_level_idc",
+      "if ptl.General_profile_idc > record.GeneralProfileIDC",
+      "record.GeneralProfileIDC = ptl.General_profile_idc",
+      "record.GeneralProfileCompatibilityFlags &= ptl.GeneralProfileCompatibilityFlags",
+      "record.GeneralConstraintIndicatorFlags &= ptl.GeneralConstraintIndicatorFlags"] ∧
+    IpcHub.Gen.marshalHevcRecord = ["buff := make([]byte, record.MarshalSize())", "offset := 0", "buff[offset] = 0x1", "offset++",
+      "buff[offset] = record.GeneralProfileSpace<<6 | record.GeneralTierFlag<<5 | record.GeneralProfileIDC",
+      "offset++", "binary.BigEndian.PutUint32(buff[offset:], record.GeneralProfileCompatibilityFlags)",
+      "offset += 4",
+      "binary.BigEndian.PutUint32(buff[offset:], uint32(record.GeneralConstraintIndicatorFlags>>16))",
+      "offset += 4",
+      "binary.BigEndian.PutUint16(buff[offset:], uint16(record.GeneralConstraintIndicatorFlags))",
+      "offset += 2", "buff[offset] = record.GeneralLevelIDC", "offset++",
+      "binary.BigEndian.PutUint16(buff[offset:], 0xf000)", "offset += 2", "buff[offset] = 0xfc", "offset++",
+      "buff[offset] = record.ChromaFormatIDC | 0xfc", "offset++",
+      "buff[offset] = record.BitDepthLumaMinus8 | 0xf8", "offset++",
+      "buff[offset] = record.BitDepthChromaMinus8 | 0xf8", "offset++",
+      "binary.BigEndian.PutUint16(buff[offset:], 0)", "offset += 2",
+      "buff[offset] = 0<<6 | record.MaxSubLayers<<3 | record.TemporalIdNestingFlag<<2 | record.LengthSizeMinusOne",
+      "offset++", "buff[offset] = 0x03", "offset++",
+      "pset := []struct { nalType uint8 data []byte }{ {hevc.NalVps, record.VPS}, {hevc.NalSps, record.SPS}, {hevc.NalPps, record.PPS}, }",
+      "for range pset", "buff[offset] = ps.nalType", "offset++",
+      "binary.BigEndian.PutUint16(buff[offset:], 1)", "offset += 2",
+      "binary.BigEndian.PutUint16(buff[offset:], uint16(len(ps.data)))", "offset += 2",
+      "copy(buff[offset:], ps.data)", "offset += len(ps.data)", "return buff, nil"] ∧
+    IpcHub.Gen.marshalHevcRecordSize = ["return 23 + 5 + len(record.VPS) + 5 + len(record.SPS) + 5 + len(record.PPS)"] := by
+  set_option maxRecDepth 100000 in decide
+
+/-- … the AMF0 writers and `Tag.Size` (see `c08_source_marshal`) -/
+theorem c08_source_marshal_amf :
+    IpcHub.Gen.amfWriteAny = ["if any == nil", "err = writeType(w, TypeNull)", "return", "switch v := any.(type)", "v := any.(type)",
+      "case *string", "if len(*v) > 65535", "err = WriteLongString(w, *v)", "err = WriteString(w, *v)",
+      "case string", "if len(v) > 65535", "err = WriteLongString(w, v)", "err = WriteString(w, v)",
+      "case *bool", "err = WriteBool(w, *v)", "case bool", "err = WriteBool(w, v)", "case *int",
+      "err = WriteNumber(w, float64(*v))", "case int", "err = WriteNumber(w, float64(v))", "case *int8",
+      "err = WriteNumber(w, float64(*v))", "case int8", "err = WriteNumber(w, float64(v))", "case *int16",
+      "err = WriteNumber(w, float64(*v))", "case int16", "err = WriteNumber(w, float64(v))", "case *int32",
+      "err = WriteNumber(w, float64(*v))", "case int32", "err = WriteNumber(w, float64(v))", "case *int64",
+      "err = WriteNumber(w, float64(*v))", "case int64", "err = WriteNumber(w, float64(v))", "case *uint",
+      "err = WriteNumber(w, float64(*v))", "case uint", "err = WriteNumber(w, float64(v))", "case *uint8",
+      "err = WriteNumber(w, float64(*v))", "case uint8", "err = WriteNumber(w, float64(v))", "case *uint16",
+      "err = WriteNumber(w, float64(*v))", "case uint16", "err = WriteNumber(w, float64(v))", "case *uint32",
+      "err = WriteNumber(w, float64(*v))", "case uint32", "err = WriteNumber(w, float64(v))", "case *uint64",
+      "err = WriteNumber(w, float64(*v))", "case uint64", "err = WriteNumber(w, float64(v))", "case *float32",
+      "err = WriteNumber(w, float64(*v))", "case float32", "err = WriteNumber(w, float64(v))",
+      "case *float64", "err = WriteNumber(w, *v)", "case float64", "err = WriteNumber(w, v)",
+      "case *time.Time", "err = WriteDate(w, *v)", "case time.Time", "err = WriteDate(w, v)",
+      "case *UndefinedValue", "err = writeType(w, TypeUndefined)", "case UndefinedValue",
+      "err = writeType(w, TypeUndefined)", "case *EcmaArray", "err = WriteEcmaArray(w, *v)", "case EcmaArray",
+      "err = WriteEcmaArray(w, v)", "case *Object", "err = WriteObject(w, *v)", "case Object",
+      "err = WriteObject(w, v)", "case *StrictArray", "err = WriteStrictArray(w, *v)", "case StrictArray",
+      "err = WriteStrictArray(w, v)", "default",
+      "err = fmt.Errorf(\"Unsupported type : %v\", reflect.TypeOf(v))", "return"] ∧
+    IpcHub.Gen.amfWriteEcmaArray = ["var buff [5]byte", "buff[0] = TypeEcmaArray",
+      "binary.BigEndian.PutUint32(buff[1:], uint32(len(arr)))", "if _, err = w.Write(buff[:]); err != nil",
+      "return", "for range arr", "if err = writeUtf8(w, elem.Name, 2); err != nil", "return",
+      "if err = WriteAny(w, elem.Value); err != nil", "return",
+      "if _, err = w.Write([]byte{0x00, 0x00, TypeObjectEnd}); err != nil", "return", "return"] ∧
+    IpcHub.Gen.amfWriteBool = ["var buff [2]byte", "buff[0] = TypeBoolean", "if value", "buff[1] = 1", "buff[1] = 0",
+      "_, err = w.Write(buff[:])", "return"] ∧
+    IpcHub.Gen.amfWriteNumber = ["var buff [9]byte", "buff[0] = TypeNumber", "v2 := math.Float64bits(value)",
+      "binary.BigEndian.PutUint64(buff[1:], v2)", "_, err = w.Write(buff[:])", "return"] ∧
+    IpcHub.Gen.amfWriteString = ["var buff [1]byte", "buff[0] = TypeString", "if _, err = w.Write(buff[:]); err != nil", "return",
+      "return writeUtf8(w, value, 2)"] ∧
+    IpcHub.Gen.amfWriteLongString = ["var buff [1]byte", "buff[0] = TypeLongString", "if _, err = w.Write(buff[:]); err != nil", "return",
+      "return writeUtf8(w, value, 4)"] ∧
+    IpcHub.Gen.amfWriteType = ["var buff [1]byte", "buff[0] = typ", "_, err = w.Write(buff[:])", "return"] ∧
+    IpcHub.Gen.amfWriteUtf8 = ["var buff [4]byte", "binary.BigEndian.PutUint32(buff[:], uint32(len(value)))",
+      "if _, err = w.Write(buff[4-lenSize:]); err != nil", "return", "if ws, ok := w.(io.StringWriter); ok",
+      "_, err = ws.WriteString(value)", "else", "_, err = w.Write([]byte(value))", "return"] ∧
+    IpcHub.Gen.tagSize = ["return TagHeaderSize + len(tag.Data)"] := by
+  set_option maxRecDepth 100000 in decide
+
+/-- `media/cache.FlvCache` as the joiner model (`Model/FlvJoin.lean` over `Model/FlvCacheM.lean`)
+    reads it: `CachePack` records the timestamp of every media tag (after the three header
+    cases, before the GOP logic); `PushTo` starts the replay's time stamp from it and takes the
+    first cached GOP tag's instead when there is one; each cached header is COPIED, the copy is
+    stamped and queued (the cached tag — shared with every client that still has it queued —
+    is never written to). -/
+theorem c08_source_cache :
+    IpcHub.Gen.cacheStampNow = true ∧
+    IpcHub.Gen.flvCacheInitDefs = ["cache.lastTimestamp", "tag.Timestamp"] ∧
+    IpcHub.Gen.flvCacheLastDefs = ["tag.Timestamp"] ∧
+    IpcHub.Gen.flvCachePackShape = ["tag := pack.(*flv.Tag)", "cache.l.Lock()", "defer", "if tag.IsMetadata()",
+      "if tag.IsH2645SequenceHeader()", "if tag.IsAACSequenceHeader()", "cache.lastTimestamp = tag.Timestamp",
+      "keyframe := tag.IsH2645KeyFrame()", "if cache.cacheGop", "return keyframe"] ∧
+    IpcHub.Gen.flvCachePushHeaders = ["nil != cache.metaData", "metaData := *cache.metaData", "metaData.Timestamp = initTimestamp",
+      "q.Queue().Push(&metaData)", "bytes += metaData.Size()", "nil != cache.videoSequenceHeader",
+      "videoSequenceHeader := *cache.videoSequenceHeader", "videoSequenceHeader.Timestamp = initTimestamp",
+      "q.Queue().Push(&videoSequenceHeader)", "bytes += videoSequenceHeader.Size()",
+      "nil != cache.audioSequenceHeader", "audioSequenceHeader := *cache.audioSequenceHeader",
+      "audioSequenceHeader.Timestamp = initTimestamp", "q.Queue().Push(&audioSequenceHeader)",
+      "bytes += audioSequenceHeader.Size()"] := by
+  decide
+
 /-- the model instantiated with the regenerated switches is the repaired behaviour -/
 theorem c08_gen_cfg : genCfg = fixedCfg := by decide
 
@@ -287,7 +445,7 @@ theorem c08_media_tag (vm : VideoMeta) (am : AudioMeta) (f : Frame) (hcodec : vm
     (hc : carried (srcOf vm am) f = true) (hok : FrameOk f) :
     ∃ t, packetize vm am f = ([t], false) ∧ t.timestamp = u32OfInt (tagTimeMs f) ∧
       ∀ d, mediaTagCarries (srcOf vm am) f (viewTag t d) = true := by
-  obtain ⟨t, h1, _, h3, h4⟩ := packetize_carried vm am f hcodec hc hok
+  obtain ⟨t, h1, _, h3, h4⟩ := packetize_carried vm am f hcodec hc hok.fits
   exact ⟨t, h1, h3, h4⟩
 
 /-- frames that are not carried (audio of a stream without AAC, other media types) produce no tag -/
@@ -375,6 +533,89 @@ theorem c08_seqhdr_witness :
        (parseFlv r.1).map (fun p => p.2.length))
     (muxBytes pinnedCfg vm am [] 1 frames).map outcome = some (true, false, some 1) ∧
     (muxBytes fixedCfg vm am [] 1 frames).map outcome = some (false, true, some 4) := by
+  set_option maxRecDepth 100000 in decide
+
+/-! ## joining at any tag -/
+
+/-- **C08 for a client that joins a running stream — at any tag, with or without GOP caching.**
+    For every stream, frame sequence and `creationdate` as in `c08_end_to_end`, every
+    `k` (the number of tags the stream has written when the HTTP-FLV / WebSocket-FLV client
+    attaches) and both settings of `cache_gop`, composing the three models the way `media.Stream`
+    wires them — `flv.Muxer` (frames → tags), `cache.FlvCache` (`CachePack` per tag; `PushTo` at
+    the join: copies of the cached configuration tags stamped with the replay's time, the cached
+    GOP; then every later tag) and the client's own `flv.Writer`:
+
+    * the worker survives, and
+    * the bytes the client receives satisfy `Spec.checkJoinedAt`: they parse as FLV (right
+      header flags, every tag followed by its exact size); first come `onMetaData`, the AVC/HEVC
+      decoder configuration built from the stream's parameter sets and (iff AAC) the AAC
+      configuration, all with timestamp 0; then exactly one tag per frame the client is owed
+      (`Spec.joinView`: with GOP caching every carried frame from the latest key frame before
+      the join, otherwise every carried frame from the join on — nothing lost, nothing twice),
+      each holding its source NAL unit / AAC frame with the right key flag and CTS; timestamps
+      are the DTS/PTS in ms rebased to the client's time origin (that key frame, resp. the
+      latest frame before the join), a frame older than the origin is stamped 0, never a
+      wrapped value.
+
+    Hypotheses: as in `c08_end_to_end`, except that the signed 32-bit window of FLV timestamps
+    (24.8 days) is demanded around the CLIENT's time origin and only of the frames it is owed —
+    the age of the stream does not matter (before 75c064c it did: `c08_nogop_join_witness`). -/
+theorem c08_joiner_end_to_end (vm : VideoMeta) (am : AudioMeta) (date : Bytes) (known : Nat) (frames : List Frame)
+    (gop : Bool) (k : Nat)
+    (hcodec : vm.codec ≠ .other) (hfaith : hevcFaithful vm = true)
+    (hs : vm.sps.length < 65536) (hp : vm.pps.length < 65536) (hv : vm.vps.length < 65536)
+    (ha : am.asc.length + 2 < 16777216) (hd : date.length < 65536)
+    (hall : ∀ f ∈ fromStart (srcOf vm am) known frames, carried (srcOf vm am) f = true → FrameFits f)
+    (hwin : ∀ f ∈ (joinView (srcOf vm am) gop ((fromStart (srcOf vm am) known frames).filter (carried (srcOf vm am)))
+                    (k - prefixLen (srcOf vm am))).2,
+        -2147483648 ≤ tagTimeMs f - (joinView (srcOf vm am) gop
+            ((fromStart (srcOf vm am) known frames).filter (carried (srcOf vm am))) (k - prefixLen (srcOf vm am))).1 ∧
+        tagTimeMs f - (joinView (srcOf vm am) gop
+            ((fromStart (srcOf vm am) known frames).filter (carried (srcOf vm am))) (k - prefixLen (srcOf vm am))).1 < 2147483648) :
+    ∃ bs, IpcHub.FlvJoin.joinBytes genCfg vm am date known frames gop k = some (bs, false) ∧
+      checkJoinedAt (srcOf vm am) (fromStart (srcOf vm am) known frames) gop k bs = true := by
+  rw [c08_gen_cfg]
+  exact checkJoinedAt_joinBytes fixedCfg ⟨rfl, rfl⟩ rfl rfl vm am date known frames gop k hcodec hfaith hs hp hv ha hd hall hwin
+
+/-- non-vacuity: an H.264+AAC stream 50 days old (times beyond 2^32 ms), GOP caching on, a client that
+    joins after 7 tags — behind the second key frame — is owed that key frame, the audio frame
+    20 ms older than it and the frame after the join; all lie within the window around the key frame -/
+example :
+    let vm : VideoMeta :=
+      { codec := .h264, width := 640, height := 480, frameRate := 0, dataRate := 0,
+        sps := [0x67, 0x42, 0xc0, 0x1e, 0xd9], pps := [0x68, 0xcb], vps := [], hevcVps := none, hevcSps := none }
+    let am : AudioMeta :=
+      { aac := true, sampleRate := 44100, sampleSize := 16, channels := 2, dataRate := 0, asc := [0x12, 0x10] }
+    let frames : List Frame := [⟨0, 4320000000000000, 4320000000000000, [0x65, 0x88]⟩, ⟨0, 4320000040000000, 4320000040000000, [0x41]⟩,
+      ⟨0, 4320000080000000, 4320000120000000, [0x65, 0x89]⟩, ⟨1, 4320000060000000, 4320000060000000, [0x21]⟩,
+      ⟨0, 4320000120000000, 4320000120000000, [0x41, 0x9a]⟩]
+    let v := joinView (srcOf vm am) true ((fromStart (srcOf vm am) 0 frames).filter (carried (srcOf vm am))) (7 - prefixLen (srcOf vm am))
+    v.1 = 4320000080 ∧ v.2 = frames.drop 2 ∧
+    (∀ f ∈ fromStart (srcOf vm am) 0 frames, carried (srcOf vm am) f = true → FrameFits f) ∧
+    (∀ f ∈ v.2, -2147483648 ≤ tagTimeMs f - v.1 ∧ tagTimeMs f - v.1 < 2147483648) := by decide
+
+/-- Before 75c064c this failed without a cached GOP (kept as a theorem about the model with the
+    old switch, and as corpus/C08/nogop-join-old-stream.case): an H.264 stream 2 200 000 000 ms old
+    (25.5 days), `cache_gop` off, a client joins behind the key frame (3 tags written).  It is owed
+    the next two frames, 40 and 80 ms later.  The replayed configuration tags were stamped 0, the
+    writer took 0 as its time base, and both frames — 2^31 ms and more away from it — were taken
+    for older than the first tag and written with timestamp 0 (0, 0 instead of 40, 80).  With the
+    configuration tags stamped with the stream's current time they are written correctly. -/
+theorem c08_nogop_join_witness :
+    let vm : VideoMeta :=
+      { codec := .h264, width := 640, height := 480, frameRate := 0, dataRate := 0,
+        sps := [0x67, 0x42, 0xc0, 0x1e, 0xd9], pps := [0x68, 0xcb], vps := [], hevcVps := none, hevcSps := none }
+    let am : AudioMeta :=
+      { aac := false, sampleRate := 44100, sampleSize := 16, channels := 2, dataRate := 0, asc := [0x12, 0x10] }
+    let frames : List Frame := [⟨0, 2200000000000000, 2200000000000000, [0x65, 0x88]⟩,
+      ⟨0, 2200000040000000, 2200000040000000, [0x41, 0x9a]⟩, ⟨0, 2200000080000000, 2200000080000000, [0x41, 0x9b]⟩]
+    -- (does the client's stream satisfy C08?, the timestamps of the tags it got)
+    let outcome := fun (r : Bytes × Bool) =>
+      (checkJoinedAt (srcOf vm am) (fromStart (srcOf vm am) 0 frames) false 3 r.1,
+       (parseFlv r.1).map (fun p => p.2.map (·.timestamp)))
+    (IpcHub.FlvJoin.joinBytes { fixedCfg with stampNow := false } vm am [] 0 frames false 3).map outcome
+      = some (false, some [0, 0, 0, 0]) ∧
+    (IpcHub.FlvJoin.joinBytes fixedCfg vm am [] 0 frames false 3).map outcome = some (true, some [0, 0, 40, 80]) := by
   set_option maxRecDepth 100000 in decide
 
 /-- The joiner's timeline at the current tree's writer configuration: when a consumer joins an
